@@ -114,6 +114,39 @@ def specDestroyContainer (a : AState) (h : CH) : AState × Except Code Unit :=
                  frames := a.frames.filter (fun f => !(f.cid == h.id) && !(f.parent == h.id)),
                  loops := a.loops.filter (fun y => !(y.cid == h.id)) }, .ok ())
 
+/-- cif_loop_get_names: (normalised name, spelling) of the loop's items, in the loop's order; a loop without items does not exist -/
+def specGetNames (a : AState) (l : LH) : Except Code (List (Str × Str)) :=
+  match a.findLoop l.cid l.loopNum with
+  | none => .error CIF_INVALID_HANDLE
+  | some x => match x.items with
+    | [] => .error CIF_INVALID_HANDLE
+    | is => .ok is
+
+/-- cif_container_get_category_loop: the one loop of the container with that category -/
+def specGetCategoryLoop (a : AState) (h : CH) (cat : Option Str) : Except Code LH :=
+  match cat with
+  | none => .error CIF_INVALID_CATEGORY
+  | some c =>
+    match a.loops.filter (fun y => y.cid == h.id && y.category == some c) with
+    | [] => .error CIF_NOSUCH_LOOP
+    | [y] => .ok { cid := h.id, loopNum := y.num, category := some c }
+    | _ => .error CIF_CAT_NOT_UNIQUE
+
+/-- cif_container_get_item_loop: the loop of the container that has the item -/
+def specGetItemLoop (a : AState) (h : CH) (name : Option Name) : Except Code LH :=
+  match name with
+  | none => .error CIF_NOSUCH_ITEM
+  | some n =>
+    if !n.valid then .error CIF_NOSUCH_ITEM
+    else match a.loops.filter (fun y => y.cid == h.id && y.hasItem n.key) with
+      | [] => .error CIF_NOSUCH_ITEM
+      | [y] => .ok { cid := h.id, loopNum := y.num, category := y.category }
+      | _ => .error CIF_INTERNAL_ERROR
+
+/-- cif_container_prune: the loops of the container that have no packet go -/
+def specPrune (a : AState) (h : CH) : AState × Except Code Unit :=
+  ({ a with loops := a.loops.filter (fun y => !(y.cid == h.id && y.packets.isEmpty)) }, .ok ())
+
 -- ---- histories on the documented model -----------------------------------------------------------------------------------------------
 
 /-- the world of a history, every managed CIF as the documented model; the handle tables are the caller's (a handle names an object),
@@ -153,6 +186,7 @@ end AWorld
 /-- the ops `specStep` covers so far -/
 def Op.covered : Op → Bool
   | .addPkt .. | .setCat .. | .ldestroy .. => true
+  | .names .. | .catLoop .. | .itemLoop .. | .prune .. => true
   | .cifNew | .cifDel .. | .getBlock .. | .blocks .. | .getFrame .. | .frames .. | .code .. | .isBlock .. | .getCat .. | .cdestroy .. => true
   | _ => false
 
@@ -234,6 +268,31 @@ def specStep (a : AWorld) : Op → Option (AWorld × Result)
                 chs := a.chs.set h none,
                 lhs := a.lhs.map (fun le => match le with | some le => if le.ch == h then none else some le | none => none) },
             { rc := some (codeOf r) })
+  | .names l =>
+    match a.liveL l with
+    | none => some (a, skipped)
+    | some (e, st) =>
+      let r := specGetNames st e.h
+      some (a.setCif e.cif st, { rc := some (codeOf r), out := match r with | .ok ns => .strs (ns.map (·.2)) | .error _ => .unit })
+  | .catLoop h cat =>
+    match a.liveH h with
+    | none => some ({ a with lhs := a.lhs ++ [none] }, skipped)
+    | some (e, st) =>
+      let r := specGetCategoryLoop st e.h cat
+      some ({ (a.setCif e.cif st) with lhs := a.lhs ++ [match r with | .ok l => some { cif := e.cif, ch := h, h := l } | .error _ => none] }, { rc := some (codeOf r) })
+  | .itemLoop h n =>
+    match a.liveH h with
+    | none => some ({ a with lhs := a.lhs ++ [none] }, skipped)
+    | some (e, st) =>
+      let r := specGetItemLoop st e.h n
+      some ({ (a.setCif e.cif st) with lhs := a.lhs ++ [match r with | .ok l => some { cif := e.cif, ch := h, h := l } | .error _ => none] },
+            { rc := some (codeOf r), out := match r with | .ok l => .str l.category | .error _ => .unit })
+  | .prune h =>
+    match a.liveH h with
+    | none => some (a, skipped)
+    | some (e, st) =>
+      let (st1, r) := specPrune st e.h
+      some (a.setCif e.cif st1, { rc := some (codeOf r) })
   | _ => none
 
 /-- a whole history on the documented model (`none` as soon as an op is not covered) -/
